@@ -184,6 +184,9 @@ def gen_case(idx: int, seed: int, tier: str) -> Any:
         if key in ("max_threads", "start_timeout"):
             val = rng.choice(["4", "6"])
         sets.append(["kv", key, val])
+    if rng.random() < 0.02:
+        files[-1]["services"] = rng.choice([["server", "client"], "server", 5])  # not a mapping: the command must fail
+
     def pick() -> Any:
         r = rng.random()
         if r < 0.55:
